@@ -19,7 +19,7 @@ PROP = 'C13'
 VARIANTS = ['asan-direct']
 RULE = ('Per font: exhaustive over all code points 0..0x10FFFF and 6 out-of-range values, three lookups each (direct, cached, reference) + is_char_supported on both faces. '
         'Fonts: all 17 shipped fonts; Hypothesis-generated cmaps: 1-40 format-4 segments (delta or idRangeOffset mode, boundary-heavy ranges, optional mapped U+FFFF), '
-        'optional format-12 subtable (groups in and above the BMP), 1-3 platform/encoding records in every preference order. Non-trivial font: >= 3 segments and '
+        'optional format-12 subtable (groups in and above the BMP; sometimes the only subtable), 1-3 platform/encoding records in every preference order, optional Silf pseudo-glyph map of 1-11 entries; the pseudo fallback is judged against my own parser of the Silf table, never the library. Non-trivial font: >= 3 segments and '
         '(an idRangeOffset segment or a format-12 subtable). distinct_nontrivial counts distinct non-trivial fonts (by cmap bytes); evaluations counts code-point lookups.')
 NGLYPHS = 12
 BOUND = [0, 1, 2, 0x1F, 0x20, 0x7E, 0x7F, 0x80, 0xFF, 0x100, 0x101, 0x7FF, 0x800, 0xFFF, 0x1000, 0xD7FF, 0xD800, 0xDFFF, 0xE000, 0xFEFF, 0xFFFC, 0xFFFD, 0xFFFE]
